@@ -437,3 +437,7 @@ mod tests {
         );
     }
 }
+
+#[cfg(kani)]
+#[path = "/verif/kani/arrow-ipc/compression.rs"]
+mod verif_kani;
